@@ -542,3 +542,29 @@ prop("C24", "store_names", "every ordered pair of workloads over 10 application 
      ["names are filtered by the real DeployOptions.Validate / Entrypoint.Validate / AddNodeOptions.Validate; only accepted names are used",
       "status streams are not exercised on redis (miniredis has no keyspace notifications)", "stores are wiped between scenarios; one driver process per shard"])
 ALSO["C24"] = ["store"]
+
+
+# =========================================================================== Store status: C25
+@family("store_status")
+def fam_store_status(tier, base):
+    q = tier == "quick"
+    inputs, trace = base + ".in.ndjson", base + ".trace.ndjson"
+    r = verif.model_check("MC_StoreStatus", "MC_StoreStatus_small.cfg", timeout=3000)
+    seen = set()
+    with open(inputs, "w") as f:
+        n, gen = _sim_inputs("MC_StoreStatus", "MC_StoreStatus_sim.cfg", 40 if q else 400, 12, f, seen, keep=120 if q else 2400)
+    b = verif.build_driver("storecmp")
+    verif.run_driver(b, "TestStoreStatus", env={"VERIF_INPUTS": inputs, "VERIF_TRACE": trace, "VERIF_PAR": 120 if q else 300}, timeout=7000)
+    os.remove(inputs)
+    viols, tr = verif.validate_trace("Trace_StoreStatus", "Trace_StoreStatus.cfg", trace, heap="8g")
+    lines = verif.read_lines(trace)
+    cnt = lambda s: sum(1 for ln in lines if s in ln)
+    return dict(trace=trace, viols=viols, states=r.distinct, transitions=r.generated + gen, configs=["MC_StoreStatus_small.cfg", "MC_StoreStatus_sim.cfg", "Trace_StoreStatus.cfg"], window=11,
+                exhaustive=False, traces={"*": cnt('"ev":"StRun"')}, samples={"*": [json.loads(x) for x in lines[:4]]},
+                nontrivial={"C25": cnt('"op":"report"')},
+                notes="%d TLC-simulated sequences (10 steps: add/remove entity, report with TTL 4/8/0/-1 s and value A/B, ticks of 2/3/7 s) run on etcd in real time and on redis in virtual time; %d status reports, statuses read back after every step" % (n, cnt('"op":"report"')))
+
+
+prop("C25", "store_status", "TLC-simulated sequences over one node and one workload: reports with positive / zero / negative TTL, same and changed values, TTL changes, entity removal and re-creation, time passing; acceptance and visibility judged after every step on both stores; non-trivial = status reports",
+     ["etcd in real time on an embedded etcd: a status must be visible until 1.0 s before its lapse and gone 2.5 s after it (etcd revokes expired leases lazily); nothing is required in between",
+      "redis on miniredis with FastForward (virtual time, no slack)", "a workload's status is read through GetWorkloadStatus and therefore only while the workload is recorded; after an entity is removed its status may or may not be visible until the next report"])
